@@ -774,3 +774,133 @@ pub(super) fn job_lsp_points(job: &J) -> J {
 
 #[allow(dead_code)]
 fn unused(_: PathBuf) {}
+
+// ---------------------------------------------------------------
+// C15 at the call sites: every place where the checker combines
+// several types into one.
+
+struct CombineSites<'a> {
+    id_to_ty: &'a rustc_hash::FxHashMap<crate::parser::ast::SyntaxId, Type>,
+    sites: Vec<J>,
+}
+
+impl CombineSites<'_> {
+    fn ty_of(&self, e: &crate::parser::ast::Expression) -> Option<Type> {
+        self.id_to_ty.get(&e.id).cloned()
+    }
+
+    /// The type of the value a block produces: its last expression,
+    /// or Unit for an empty block.
+    fn block_ty(&self, b: &crate::parser::ast::Block) -> Option<Type> {
+        match b.exprs.last() {
+            Some(e) => self.ty_of(e),
+            None => Some(Type::unit()),
+        }
+    }
+
+    fn record(&mut self, kind: &str, whole_pos: &Position, whole: Option<Type>, container: bool, parts: Vec<Option<Type>>) {
+        let Some(whole) = whole else { return };
+        // For list and dict literals the combined type is the type argument.
+        let combined = if container {
+            match &whole {
+                Type::UserDefined { args, .. } if args.len() == 1 => args[0].clone(),
+                other => other.clone(),
+            }
+        } else {
+            whole.clone()
+        };
+        let known: Vec<Type> = parts.iter().flatten().cloned().collect();
+        let mut not_covered = vec![];
+        for p in &known {
+            if !is_subtype(p, &combined) {
+                not_covered.push(format!("{p}"));
+            }
+        }
+        let all_equal = !known.is_empty() && known.len() == parts.len() && known.iter().all(|p| *p == known[0]);
+        let equal_not_kept = all_equal && !known[0].is_error() && combined != known[0];
+        self.sites.push(json!({
+            "kind": kind,
+            "position": pos_json(whole_pos),
+            "whole": format!("{whole}"),
+            "combined": format!("{combined}"),
+            "combined_is_error": combined.is_error() || whole.is_error(),
+            "parts": parts.iter().map(|p| p.as_ref().map(|t| format!("{t}"))).collect::<Vec<_>>(),
+            "not_covered": not_covered,
+            "equal_not_kept": equal_not_kept,
+        }));
+    }
+}
+
+impl crate::parser::visitor::Visitor for CombineSites<'_> {
+    fn visit_expr(&mut self, expr: &crate::parser::ast::Expression) {
+        use crate::parser::ast::Expression_::*;
+        match &expr.expr_ {
+            ListLiteral(items) if !items.is_empty() => {
+                let parts = items.iter().map(|i| self.ty_of(&i.expr)).collect();
+                self.record("list literal", &expr.position, self.ty_of(expr), true, parts);
+            }
+            DictLiteral(items) if !items.is_empty() => {
+                let parts = items.iter().map(|i| self.ty_of(&i.value)).collect();
+                self.record("dict literal", &expr.position, self.ty_of(expr), true, parts);
+            }
+            If(_, then_body, Some(else_body)) if expr.value_is_used => {
+                let parts = vec![self.block_ty(then_body), self.block_ty(else_body)];
+                self.record("if/else", &expr.position, self.ty_of(expr), false, parts);
+            }
+            Match(_, cases) if expr.value_is_used && !cases.is_empty() => {
+                let parts = cases.iter().map(|(_, b)| self.block_ty(b)).collect();
+                self.record("match", &expr.position, self.ty_of(expr), false, parts);
+            }
+            Try(body, _, handler) if expr.value_is_used => {
+                let parts = vec![self.block_ty(body), self.block_ty(handler)];
+                self.record("try/catch", &expr.position, self.ty_of(expr), false, parts);
+            }
+            _ => {}
+        }
+        self.visit_expr_(&expr.expr_);
+    }
+}
+
+/// For each source: type check it and report, for every expression
+/// that combines several types, the combined type and whether it
+/// covers the type of each part (by the real `is_subtype`).
+pub(super) fn job_combine_types(job: &J) -> J {
+    use crate::parser::visitor::Visitor;
+    let empty = vec![];
+    let mut out = vec![];
+    for src in job["srcs"].as_array().unwrap_or(&empty) {
+        let src = src.as_str().unwrap_or("");
+        let r = verif_rt::guarded(|| -> J {
+            let path = PathBuf::from("/verif_scratch/main.gdn");
+            let mut id_gen = IdGenerator::default();
+            let (vfs, vfs_path) = Vfs::singleton(path.clone(), src.to_owned());
+            let (items, errors) = parse_toplevel_items(&vfs_path, src, &mut id_gen);
+            if !errors.is_empty() {
+                return json!({"parse_errors": errors.len()});
+            }
+            let mut env = Env::new(id_gen, vfs);
+            let ns = env.get_or_create_namespace(&path);
+            load_toplevel_items(&items, &mut env, Rc::clone(&ns));
+            let summary = crate::checks::type_checker::check_types(&vfs_path, &items, &env, ns);
+            let mut v = CombineSites {
+                id_to_ty: &summary.id_to_ty,
+                sites: vec![],
+            };
+            for item in &items {
+                v.visit_toplevel_item(item);
+            }
+            let errors: Vec<J> = summary
+                .diagnostics
+                .iter()
+                .filter(|d| matches!(d.severity, crate::diagnostics::Severity::Error))
+                .map(|d| json!({"message": d.message.as_string(), "position": pos_json(&d.position)}))
+                .collect();
+            json!({"sites": v.sites, "errors": errors})
+        });
+        out.push(match r {
+            Ok(v) => v,
+            Err(msg) => json!({"panic": msg}),
+        });
+    }
+    json!({"results": out})
+}
